@@ -6,10 +6,31 @@ package ref
 
 import "strings"
 
-// LayerPiece is literal text or a reference ${Ref}.
+// LayerPiece is literal text or a reference ${Ref}, ${Ref-Def} (Op "-": Def
+// when Ref is not defined) or ${Ref:-Def} (Op ":-": Def when Ref is not
+// defined or empty).
 type LayerPiece struct {
 	Lit string `json:"lit,omitempty"`
 	Ref string `json:"ref,omitempty"`
+	Op  string `json:"op,omitempty"`
+	Def string `json:"def,omitempty"`
+}
+
+// LayerExpand is the text a reference piece stands for. A name defined with
+// an empty value is defined.
+func LayerExpand(p LayerPiece, earlierFiles, project, earlierLines map[string]string) string {
+	v, n := LayerLookup(p.Ref, earlierFiles, project, earlierLines)
+	switch p.Op {
+	case "-":
+		if n == 0 {
+			return p.Def
+		}
+	case ":-":
+		if n == 0 || v == "" {
+			return p.Def
+		}
+	}
+	return v
 }
 
 // LayerLine is one KEY=VALUE line of an env/label file.
@@ -69,8 +90,7 @@ func LayerFoldFiles(files []LayerFile, project map[string]string) map[string]str
 					sb.WriteString(p.Lit)
 					continue
 				}
-				v, _ := LayerLookup(p.Ref, env, project, local)
-				sb.WriteString(v)
+				sb.WriteString(LayerExpand(p, env, project, local))
 			}
 			local[l.Key] = sb.String()
 		}
